@@ -20,7 +20,7 @@ structure Inv {Q : Type} (e : Env) (pool : List Tx) {ops : QueueOps Q} (law : Qu
   sigs : s.sigs = (txsOf pool s.sel).map (·.sigCost)
   sigSum : s.sigCost = e.cbSigCost + s.sigs.sum
   sigLim : s.sigCost ≤ MAX_BLOCK_SIGOPS_COST
-  weight : s.blockWeight = BLOCK_HEADER_OVERHEAD * WITNESS_SCALE + e.cbWeight
+  weight : s.blockWeight = e.headerOverhead * WITNESS_SCALE + e.cbWeight
     + (if s.witnessIncluded then WITNESS_RESERVE else 0) + ((txsOf pool s.sel).map (·.weight)).sum
   weightLim : s.blockWeight < e.maxWeight
   wiOnly : s.witnessIncluded = true → ∃ t ∈ txsOf pool s.sel, t.hasWitness = true
@@ -320,7 +320,7 @@ theorem commitTx_inv {e : Env} {pool : List Tx} (hp : PoolOk pool) (he : EnvOk e
   · -- sigLim
     exact hsig
   · -- weight
-    show bpw = BLOCK_HEADER_OVERHEAD * WITNESS_SCALE + e.cbWeight
+    show bpw = e.headerOverhead * WITNESS_SCALE + e.cbWeight
       + (if (s.witnessIncluded || (reserve != 0)) = true then WITNESS_RESERVE else 0)
       + ((txsOf pool (s.sel ++ [it.idx])).map (·.weight)).sum
     rw [htxs, hbpw', h.weight]
